@@ -135,6 +135,39 @@ def run(ctx):
             nt.add(key)
         else:
             nt.add(c["src"])
+    # number literals at and beyond the limits of the integer type are numbers like any other (implementation only: the extracted model is kept away from long numerals)
+    bigs = ["9223372036854775807", "9223372036854775808", "18446744073709551616", "99999999999999999999", "000000000000000000001", "2147483648", "4294967296"]
+    bcases, bmeta = [], []
+    for big in bigs:
+        for uop in ("head", "tail", "not"):
+            bcases.append({"op": "e2e", "src_hex": vh.hexs("set f to transform return '' + (%s %s) end\nreplace all 'a' with f" % (uop, big))})
+            bmeta.append(("%s %s" % (uop, big), False))
+        for op in OPS:
+            for rk in "snb":
+                for side in ("l", "r"):
+                    le, re_ = (big, EXPRS[rk][0]) if side == "l" else (EXPRS[rk][0], big)
+                    lk2, rk2 = ("n", rk) if side == "l" else (rk, "n")
+                    exp = doc_table(op, REP[lk2], REP[rk2])
+                    e = "(%s) %s (%s)" % (le, op, re_)
+                    if exp is not None and exp != "div0" and exp[0] == "b":
+                        src = "set p to pattern 'a' begin return %s end\nfind all p" % e
+                    else:
+                        src = "set f to transform return %s end\nreplace all 'a' with f" % e
+                    bcases.append({"op": "e2e", "src_hex": vh.hexs(src)})
+                    bmeta.append((e, exp is not None))
+    bres = vh.run_cases(bcases, shards=8)
+    for (e, ok), c, r in zip(bmeta, bcases, bres):
+        if "panic" in r:
+            ctx.violation("Compile panics on a process expression with a long numeral", {"source": bytes.fromhex(c["src_hex"]).decode(), "panic": r["panic"][:200]})
+            continue
+        if "ast" not in r:
+            continue
+        ev += 1
+        accepted = "bc" in r
+        if accepted != ok:
+            ctx.violation("expression %s with a long number literal is %s but the documented table %s it" % (e, "accepted" if accepted else "rejected", "lists" if ok else "does not list"),
+                          {"source": bytes.fromhex(c["src_hex"]).decode(), "error": r.get("err")})
+        nt.add(e)
     ctx.coverage["evaluations"] = ev
     ctx.coverage["distinct_nontrivial"] = len(nt)
     ctx.coverage["agreement"] = stats
